@@ -57,7 +57,7 @@ TESTS = {
     "standin_close_from_every_stage": ("zkabacus-crypto", ["C03", "C04", "C14"], ["customer.Inactive/Ready/Started/Locked::close", "merchant.Config::check_close_signature"]),
     "standin_revocation_pair": ("zkabacus-crypto", ["C05", "C15", "C20"], ["revlock.RevocationPair::new", "revlock.RevocationPair::try_from_secret", "revlock.RevocationPair::try_from_pair"]),
     "standin_close_rerandomized": ("zkabacus-crypto", ["C14"], ["customer.*::close", "customer.ClosingMessage::new", "states.CloseStateSignature::randomize"]),
-    "standin_nonce_never_close_tag": ("zkabacus-crypto", ["C18", "C15"], ["nonce.Nonce::new", "nonce.Nonce::try_from"]),
+    "standin_nonce_never_close_tag": ("zkabacus-crypto", ["C18", "C15", "C02", "C20"], ["nonce.Nonce::new", "nonce.Nonce::try_from"]),
     "standin_restore_continues": ("zkabacus-crypto", ["C20", "C03"], ["customer.Requested/Inactive/Ready/Started/Locked (serde derives)", "customer.*::close", "customer.Started::lock"]),
     "standin_merchant_flow": ("zkabacus-crypto", ["C04", "C05", "C03", "C01", "C02"], ["merchant.Config::*", "merchant.Unrevoked::complete_payment", "customer.*"]),
 }
